@@ -11,6 +11,7 @@
 extern void dispatch_async_and_wait_f(dispatch_queue_t, void *, dispatch_function_t);
 extern void dispatch_async_and_wait(dispatch_queue_t, dispatch_block_t);
 extern void dispatch_queue_set_width(dispatch_queue_t dq, long width);
+extern void *dispatch_workloop_create(const char *label);
 
 static uint64_t rng_s;
 static uint64_t rnd(void) { uint64_t x = rng_s; x ^= x << 13; x ^= x >> 7; x ^= x << 17; return rng_s = x; }
@@ -230,6 +231,12 @@ int main(int argc, char **argv) {
 		char nm[32]; snprintf(nm, sizeof nm, "hierarchy_how%d", how);
 		run_mix(strdup(nm), qs, 5, 6, 120 * scale, API_ALL, sizeof API_ALL / sizeof *API_ALL, 5);
 		run_mix(strdup(nm), qs + 2, 3, 6, 200 * scale, API_SYNCISH, sizeof API_SYNCISH / sizeof *API_SYNCISH, 3); }
+	if (WANT("hierarchy_workloop")) {
+		qinfo_t *T = (qinfo_t *)calloc(1, sizeof *T); T->serial = 1; T->name = "WL"; T->q = (dispatch_queue_t)dispatch_workloop_create("WL"); T->bottom = T;
+		qinfo_t *A = mkq("wA", 1, T->q, T, 0), *B = mkq("wB", 0, T->q, T, 0), *C = mkq("wC", 1, A->q, T, 0);
+		qinfo_t *qs[] = { A, B, C };
+		run_mix("hierarchy_workloop", qs, 3, 6, 120 * scale, API_ALL, sizeof API_ALL / sizeof *API_ALL, 5);
+		run_mix("hierarchy_workloop", qs, 3, 6, 200 * scale, API_SYNCISH, sizeof API_SYNCISH / sizeof *API_SYNCISH, 3); }
 	if (WANT("async_flood")) { qinfo_t *q = mkq("f1", 1, NULL, NULL, 0), *c = mkq("f2", 0, NULL, NULL, 0); qinfo_t *qs[] = { q, c };
 		run_mix("async_flood", qs, 2, 8, 1500 * scale, API_ASYNC, sizeof API_ASYNC / sizeof *API_ASYNC, 0); }
 	if (WANT("width_exhaustion")) { scn_width_exhaustion(4094); scn_width_exhaustion(100); scn_width_exhaustion(5000); }
